@@ -106,6 +106,19 @@ CLAIMED["C43"] = (
     "DESIGN.md section 6 C43",
 )
 
+CLAIMED["C42"] = (
+    "_compute_saturations (2, 3, 4 phases; its own vanished/saturated branches fork the paths), the vectorised "
+    "compute_saturations, chainrule_fractional_derivatives (scalar and vectorised) and normalize_rows - numba "
+    "sources executed as Python - run on symbolic fractions on the simplex, symbolic positive densities and "
+    "symbolic gradients. z3 decides s >= 0, sum s = 1 and y_j * sum_k rho_k s_k = rho_j s_j on every path; the "
+    "chain rule against an independent symbolic derivative of x_i / sum(x) for an arbitrary gradient; rows "
+    "summing to one. The small linear solve is the exact cofactor solution (n <= 3) under det != 0.",
+    "Floats as exact reals; vanishing phases have y = 0 and saturated phases y = 1 exactly, other fractions in "
+    "(eps, 1-eps), eps = 2^-10; densities in [1/8, 8]; 4 phases only in the thorough tier (solve contract stub).",
+    "symbolic execution of the numba kernels (as Python) on z3 terms + SMT (nonlinear real arithmetic)",
+    "DESIGN.md section 6 C42",
+)
+
 NOT_APPLICABLE = {
     "C11": "MPFA local systems are inverted in LAPACK/numba kernels on data-dependent block structures; a symbolic inverse of the interaction-region blocks is beyond z3/cvc5 and with concrete matrices nothing quantified remains for a solver.",
     "C13": "MPSA: same obstacle as C11 with 2-3x larger local systems.",
